@@ -1,5 +1,6 @@
 # unit `cfgwatch`: crates/lib/src/config.rs — serves C13 (no configuration change is lost between two waits of a worker)
 F = "crates/lib/src/config.rs"
+CH = "crates/lib/src/changeable.rs"
 SETTERS = ["pathset", "file_watcher", "keyboard_events", "throttle", "filterer", "on_error", "on_action", "on_action_async"]
 UNIT = dict(
     name="cfgwatch",
@@ -21,5 +22,18 @@ UNIT = dict(
         dict(id="Config::signal_change", kind="fn", src=F, impl="impl Config", name="signal_change"),
     ],
     structural=[dict(id="C13.structure.setter_%s_signals_the_change_once" % s, file=F, impl="impl Config", count_in_fn=s, pattern="self.signal_change()", expect=1,
-                     why="every Config setter must give the change signal, or workers never re-read the value it stored") for s in SETTERS],
+                     why="every Config setter must give the change signal, or workers never re-read the value it stored") for s in SETTERS] + [
+        # Changeable: "clone-out reads so handlers run without holding the lock" (RwLock guards are temporaries; Drop is not modelled by Verus, so
+        # these are decided on the token stream: the guard is never bound to a name, the handler is called on the clone)
+        dict(id="C13.structure.changeable_get_clones_out_of_a_temporary_guard", file=CH, impl="impl<T> Changeable<T> where T: Clone + Send,", count_in_fn="get",
+             pattern="self.0.read().expect(\"handler lock poisoned\").clone()", expect=1, why="get() returns a clone; the read guard is a temporary dropped before get() returns"),
+        dict(id="C13.structure.changeable_get_binds_no_guard", file=CH, impl="impl<T> Changeable<T> where T: Clone + Send,", count_in_fn="get", pattern="let", expect=0,
+             why="no lock guard outlives the expression that clones the value"),
+        dict(id="C13.structure.handler_is_called_on_the_clone_with_no_lock_held", file=CH, impl="impl<T, U> ChangeableFn<T, U> where T: Send, U: Send,", count_in_fn="call",
+             pattern="(self.0.get())(data)", expect=1, why="the handler runs after get() has returned its clone: replacing the handler from inside the handler cannot deadlock, and the invocation in progress keeps the old one"),
+        dict(id="C13.structure.handler_call_takes_no_lock_itself", file=CH, impl="impl<T, U> ChangeableFn<T, U> where T: Send, U: Send,", count_in_fn="call", token_regex="read|write|lock", expect=0,
+             why="see above"),
+        dict(id="C13.structure.changeable_replace_guard_is_a_temporary", file=CH, impl="impl<T> Changeable<T> where T: Clone + Send,", count_in_fn="replace", pattern="let", expect=0,
+             why="the write guard is dropped at the end of the assignment"),
+    ],
 )
